@@ -14,3 +14,9 @@ pub proof fn axiom_inbody_characters(m: TreeBuilder, split: SplitStatus, text: S
         s.1 is Done && s.0.orig_mode == m.orig_mode && s.0.pending_table_text == m.pending_table_text
     }),
 {}
+impl RefCell<Vec<(SplitStatus, StrTendril)>> {
+    /// RefCell::take: the vector moves out, an empty one stays
+    pub fn take(&mut self) -> (r: Vec<(SplitStatus, StrTendril)>) ensures r@ == old(self).v@, final(self).v@.len() == 0 {
+        let mut x = Vec::new(); std::mem::swap(&mut self.v, &mut x); x
+    }
+}
